@@ -50,7 +50,8 @@ Fund == /\ phase = "setup" /\ \A w \in W : order[w] # <<>>
 \* two bodies stand for the proposer's freedom (locktime 0 or block height, final or replaceable sequence, ...)
 \* ... and for spends with one or (small groups) two inputs
 Bodies == {[NoBody EXCEPT !.locktime = <<0>>, !.ins = <<1>>]}
-          \cup (IF cfg.n <= 3 /\ cfg.m = 2 THEN {[NoBody EXCEPT !.locktime = <<1>>, !.ins = <<1, 2>>]} ELSE {})
+          \cup (IF cfg.n = 2 THEN {[NoBody EXCEPT !.locktime = <<1>>, !.ins = <<1, 2>>]} ELSE {})
+          \cup (IF cfg.n = 3 THEN {[NoBody EXCEPT !.locktime = <<1>>, !.ins = <<1>>]} ELSE {})
 Propose == /\ phase = "funded" /\ \E w \in W, b \in Bodies : s' \in A_Propose(cfg, s, w, b) /\ proposed' = b
            /\ UNCHANGED <<cfg, rank, order, phase, script, hand, pushedSig>>
 Sign == /\ phase = "funded" /\ \E w \in W : s' \in A_Sign(cfg, s, w) /\ s' # s
